@@ -254,9 +254,15 @@ func genSpec(ch *simrt.Chooser, consistent bool) (*tls.ClientHelloSpec, string) 
 		desc = append(append([]string{}, desc[k:]...), desc[:k]...)
 	}
 	if grease {
-		exts = append([]tls.TLSExtension{&tls.UtlsGREASEExtension{}}, exts...)
+		// (the GREASE extensions of a hand-written spec may carry concrete GREASE code points too,
+		// as copied from a capture: they are markers, redrawn per connection like the placeholder)
+		v1, v2 := uint16(0), uint16(0)
+		if gv != uint16(tls.GREASE_PLACEHOLDER) {
+			v1, v2 = gv, uint16(0x0a0a+0x1010*((int(gv>>12)+3)%16))
+		}
+		exts = append([]tls.TLSExtension{&tls.UtlsGREASEExtension{Value: v1}}, exts...)
 		desc = append([]string{"grease"}, desc...)
-		exts = append(exts, &tls.UtlsGREASEExtension{Value: 0, Body: []byte{0}})
+		exts = append(exts, &tls.UtlsGREASEExtension{Value: v2, Body: []byte{0}})
 		desc = append(desc, "grease2")
 	}
 	if ch.Bool(55, "x-padding") {
